@@ -2154,9 +2154,19 @@ class Circuit(Unitary, StateVectorMap, Collection[Operation]):
 
     def batch_unfold(self, points: Sequence[CircuitPointLike]) -> None:
         """Unfold the CircuitGates at `points` into the circuit."""
-        points = {(point[0], self[point].location[0]) for point in points}
-        for point in reversed(sorted(points)):
+        pts = sorted(
+            {self.normalize_point((p[0], self[p].location[0])) for p in points},
+            reverse=True,
+        )
+        for i, point in enumerate(pts):
+            num_cycles = self.num_cycles
             self.unfold(point)
+            # Other gates of the same cycle were pushed right
+            growth = self.num_cycles - num_cycles
+            pts[i + 1:] = [
+                CircuitPoint(p[0] + growth, p[1]) if p[0] == point[0] else p
+                for p in pts[i + 1:]
+            ]
 
     def unfold_all(self) -> None:
         """Unfold all CircuitGates in the circuit."""
